@@ -211,15 +211,34 @@ def run(ctx, lean_ok):
         # "that mixture's" cubic: the object layer must hand the library the constants of the distributed data.  With
         # group-contribution coefficients these are the group fractions of each compound and the two interaction tables
         ft = feed_tables()
-        if not d['peneloux']:     # with a user volume shift mixgen hands over user_data built from the package's own dictionaries
-            for att, key, rt in (('M', 'M', 1e-12), ('Pc', 'Pc', 1e-6), ('Tc', 'Tc', 1e-9), ('omega', 'omega', 1e-12)):
-                want_c = np.array([ft['crit'][c][key] for c in comp])
-                got_c = np.asarray(getattr(fm, att), dtype=float)
-                if got_c.shape != want_c.shape or not np.allclose(got_c, want_c, rtol=rt, atol=0):
-                    ctx.violation('object-feeds-wrong-constants:' + att,
-                                  'FluidMixture hands the library critical constants that are not those of ChemData.csv',
-                                  {'composition': comp, 'attribute': att, 'object': got_c.tolist(), 'file_SI': want_c.tolist()})
-            ncrit += 1
+        # (with a user volume shift mixgen hands over user_data that copy the database values of every other constant, so the
+        # comparison with the file holds on that constructor path too)
+        for att, key, rt in (('M', 'M', 1e-12), ('Pc', 'Pc', 1e-6), ('Tc', 'Tc', 1e-9), ('omega', 'omega', 1e-12), ('Vc', 'Vc', 1e-12)):
+            want_c = np.array([ft['crit'][c][key] for c in comp])
+            got_c = np.asarray(getattr(fm, att), dtype=float)
+            if got_c.shape != want_c.shape or not np.allclose(got_c, want_c, rtol=rt, atol=0):
+                ctx.violation('object-feeds-wrong-constants:' + att,
+                              'FluidMixture hands the library critical constants that are not those of ChemData.csv',
+                              {'composition': comp, 'attribute': att, 'peneloux': d['peneloux'], 'object': got_c.tolist(),
+                               'file_SI': want_c.tolist()})
+        ncrit += 1
+        # user inputs: the interaction table and the volume shifts the library receives are the ones DRAWN by the generator
+        if d.get('delta_drawn') is not None:
+            got_d = np.asarray(fm.delta, dtype=float)
+            if got_d.shape != d['delta_drawn'].shape or not np.array_equal(got_d, d['delta_drawn']):
+                ctx.violation('object-feeds-wrong-constants:delta', 'FluidMixture does not hand the user interaction table to the library',
+                              {'composition': comp, 'object': got_d.tolist(), 'given': d['delta_drawn'].tolist()})
+        for i_, c in enumerate(comp):
+            if c in d.get('pen_drawn', {}):
+                want_p = d['pen_drawn'][c]
+                got_p = (float(np.asarray(fm.C_pen)[i_]), float(np.asarray(fm.C_pen_T)[i_]))
+                if got_p != want_p:
+                    ctx.violation('object-feeds-wrong-constants:C_pen', 'FluidMixture does not hand the user volume shift to the library',
+                                  {'composition': comp, 'compound': c, 'object': got_p, 'given': want_p})
+            elif d['peneloux'] and float(np.asarray(fm.C_pen)[i_]) != 0.0:
+                ctx.violation('object-feeds-wrong-constants:C_pen', 'a compound without a user volume shift does not carry the database value 0 '
+                              '(Lin-Duan estimate selected by C_pen = 0)', {'composition': comp, 'compound': c,
+                                                                            'object': float(np.asarray(fm.C_pen)[i_])})
         if d['delta_mode'] == 'groups':
             want = np.array([ft['groups'].get(c, [0.0] * 15) for c in comp])
             got = np.asarray(fm.delta_groups, dtype=float)
